@@ -123,7 +123,7 @@ back, unusual call orders, faults in the middle of an operation, decoder-only in
 {table}
 ### 13b. Behaviour-preserving changes: what the checks say when the properties still hold
 
-42 refactors in two batches (three per package group and batch: readability, performance, structure; 15–250 changed lines each) were
+63 refactors in three batches (three per package group and batch: readability, performance, structure; 15–250 changed lines each) were
 written by sub-agents told to keep every observable behaviour identical, including error cases and aliasing;
 each agent cross-checked its own change with a throw-away differential fuzz against the original. They are kept
 as `benign/<id>/patch.diff`; `tools/benignrun.py` applies each in a scratch worktree, confirms the baseline suite,
@@ -137,7 +137,8 @@ translator changes of section 3a, 20 of those 21 and 39 of all 42 raised no alar
 the JSONP format literal is optional (the wrapped bytes are decided by the correspondence run), the level table of
 `Switch` follows the package's own helper functions with their parameters, and logger prefix templates that are not
 format literals fall back to the model's own templates, said so in the generated file (the correspondence run compares
-every line byte for byte). With the machinery of this commit:
+every line byte for byte). A third batch of 21 harder refactors raised four more alarms of the same kind (section 10), all repaired in the
+translator. With the machinery of this commit:
 
 {btable}
 '''
